@@ -56,6 +56,10 @@ def main():
         sh("git checkout -- .", wt)
         m = re.search(r"(\d+) passed", o)
         failed = re.search(r"(\d+) failed", o)
+        if "DIGEST" in d0 and "--digest-lines" in sys.argv:
+            # demos of feature additions print extra PASS/FAIL lines that exist only with the patch: compare the DIGEST lines
+            d0 = "\n".join(l for l in d0.splitlines() if l.startswith("DIGEST"))
+            d1 = "\n".join(l for l in d1.splitlines() if l.startswith("DIGEST"))
         conf = {"digest_pristine": d0.strip()[-80:], "digest_refactored": d1.strip()[-80:], "same_digest": d0.strip() == d1.strip() and bool(d0.strip()),
                 "tests_passed": int(m.group(1)) if m else -1, "tests_failed": int(failed.group(1)) if failed else 0}
     print("== %s r%s  alarms=%s %s" % (pid, k, sorted(alarms) or "none", ("confirm=%s" % conf) if conf else ""))
